@@ -30,7 +30,7 @@ func (m *lbModel) has(k string) bool {
 	return false
 }
 func (m *lbModel) bootstrap(keys []string) { m.members = append([]string(nil), keys...) }
-func (m *lbModel) add(k string)           { m.members = append(m.members, k) }
+func (m *lbModel) add(k string)            { m.members = append(m.members, k) }
 func (m *lbModel) remove(k string) {
 	for i, x := range m.members {
 		if x == k {
